@@ -23,7 +23,7 @@ LEVEL_TEXT = ("Base scenarios with depth-dependent sheared, time-dependent curre
 LEVEL_NOTE = "Equality is on f8 output, so 'bit for bit' is exact. Trusts the row tag column (an int instance variable) to follow the particle (C05)."
 RULE = ("case = base scenario + variant list. Non-trivial: at least one particle placed behind a removed/killed one in the state arrays survives for >= 3 further records "
         "(the cross-talk pattern); distinct by base parameters.")
-MANDATORY = ["rows_with_mult_counted", "time_shift_of_a_century_or_more_pairs", "restart_in_dense_layout_pairs", "discrete_release_with_frequency_entry", "repeat_with_stateful_plugin_pairs", "interleaved_release_times_pairs", "shallow_only_pairs", "killed_newest_pairs", "pid_to_row_mapping_checked", "vertical_advection", "deactivated_rows_alone_pairs", "lonlat_release_pairs", "reversed_time", "subgrid_off_diagonal", "float_day_time_axis", "repeat_pairs", "subset_pairs", "added_rows_pairs", "permuted_pairs", "killed_others_pairs", "time_shift_pairs", "deactivated_others_pairs", "empty_state_before_late_release_pairs", "death_then_output",
+MANDATORY = ["removed_rows_followed_among_more_than_20_particles", "rows_with_mult_counted", "time_shift_of_a_century_or_more_pairs", "restart_in_dense_layout_pairs", "discrete_release_with_frequency_entry", "repeat_with_stateful_plugin_pairs", "interleaved_release_times_pairs", "shallow_only_pairs", "killed_newest_pairs", "pid_to_row_mapping_checked", "vertical_advection", "deactivated_rows_alone_pairs", "lonlat_release_pairs", "reversed_time", "subgrid_off_diagonal", "float_day_time_axis", "repeat_pairs", "subset_pairs", "added_rows_pairs", "permuted_pairs", "killed_others_pairs", "time_shift_pairs", "deactivated_others_pairs", "empty_state_before_late_release_pairs", "death_then_output",
              "trajectory_points_compared", "dense", "sparse", "survivor_behind_removed"]
 ASSUMPTIONS = ["diffusion off (as the property states)"]
 TIMEOUT = {"quick": 900, "thorough": 3400}
@@ -108,7 +108,7 @@ def base_spec(case: dict[str, Any]):
     M = np.ones((jmax, imax))
     for j, i in land:
         M[j, i] = 0
-    nrow = int(rng.integers(10, 22))
+    nrow = int(rng.integers(10, 22)) if case["idx"] % 4 != 1 else int(rng.integers(24, 31))  # a quarter of the bases hold more than 20 particles at a time
     rows = []
     rid = 0
     while len(rows) < nrow:
@@ -219,6 +219,20 @@ def run_case(case: dict[str, Any], wd: Path) -> dict[str, Any]:
                                     f"the numbering is not a renumbering of the particles", **desc))
         sit["pid_to_row_mapping_checked"] = sit.get("pid_to_row_mapping_checked", 0) + len(who)
         out_ = trajectories(recs, scn["run"]["start"], b["dt"])
+        # a particle the IBM removed at step s is in no record after step s - however many other particles there are
+        nall = max((len(o_) for o_ in out_[1]), default=0)
+        for ks_, vs_ in (kill_tag or {}).items():
+            for v_ in vs_:
+                pts_ = out_[0].get(int(v_), [])
+                if not pts_ or pts_[0][0] > int(ks_):
+                    continue  # released after that step: the IBM's removal did not concern it
+                late_ = [q for q in pts_ if q[0] > int(ks_)]
+                sit["removed_rows_followed"] = sit.get("removed_rows_followed", 0) + 1
+                if nall > 20:
+                    sit["removed_rows_followed_among_more_than_20_particles"] = sit.get("removed_rows_followed_among_more_than_20_particles", 0) + 1
+                if late_ and len(V) < 3:
+                    V.append(C.viol(f"{tag}: release row {v_} was removed by the IBM at step {ks_} but is in the records of steps {[q[0] for q in late_][:8]} "
+                                    f"(largest record holds {nall} particles)", **desc))
         if any("mult" in r for r in rows):
             # every row yields its own mult particles, whatever the other rows of the same time say
             for r in rows:
